@@ -395,6 +395,23 @@ fn record_rrsig(out: &str, seed: u64, n: u64) {
                 };
             }
             let rsig = rrsig_of(&sig, rr.data().signature());
+            // representation conversions of the RRs and the RRSIG
+            let conv = *rng.pick(&["none", "none", "flatten", "octets"]);
+            let (mut crecs, rsig) = match catch_unwind(AssertUnwindSafe(|| convert(conv, &crecs, &rsig))) {
+                Ok(Ok(x)) => x,
+                Ok(Err(e)) => {
+                    w.event(json!({"ev": "conversion_changed_value", "conv": conv, "what": e, "sig": sig}));
+                    continue;
+                }
+                Err(_) => {
+                    w.event(json!({"ev": "panic", "in": "convert", "cur": cur}));
+                    continue;
+                }
+            };
+            if conv != "none" {
+                names.push("Convert");
+            }
+            let sigc = sig_fields(&rsig);
             let mut vbuf: Vec<u8> = vec![];
             match catch_unwind(AssertUnwindSafe(|| rsig.signed_data(&mut vbuf, &mut crecs[..]).is_err())) {
                 Ok(false) => {}
@@ -404,7 +421,7 @@ fn record_rrsig(out: &str, seed: u64, n: u64) {
                     continue;
                 }
             }
-            w.event(json!({"ev": "validate", "cur": cur, "sig": sig, "ops": names, "altered": alter,
+            w.event(json!({"ev": "validate", "cur": cur, "sig": sig, "sigc": sigc, "ops": names, "altered": alter,
                            "res": {"buf": jbytes(&vbuf)}}));
         }
     }
